@@ -187,6 +187,12 @@ func (client *OpenIDConnectClientConfig) CanRedirectToURL(redirectUrl string) (b
 	if parsedURL.Scheme != "https" {
 		return false, nil, nil
 	}
+	// Opaque forms such as "https:host/a/../b" have no Host and no Path: they
+	// would hide the path from the checks below, while browsers still treat
+	// them as https://host/a/../b.
+	if parsedURL.Opaque != "" || parsedURL.Host == "" {
+		return false, nil, nil
+	}
 	if len(parsedURL.RawQuery) > 0 {
 		return false, nil, nil
 	}
